@@ -72,6 +72,7 @@ type Conn struct {
 	peer *Conn
 
 	rdl    time.Time
+	wdl    time.Time
 	closed bool
 	lk     *sync.Mutex // pipe lock (race mode)
 	rng    uint64
@@ -422,6 +423,13 @@ func (c *Conn) Write(p []byte) (int, error) {
 		c.unlock()
 		return 0, net.ErrClosed
 	}
+	if !c.wdl.IsZero() && !time.Now().Before(c.wdl) {
+		// a write whose deadline has already passed fails, as on a real connection
+		c.record(IORec{Kind: "write", Err: os.ErrDeadlineExceeded})
+		s.logLocked("write %s deadline-exceeded", c.Name)
+		c.unlock()
+		return 0, os.ErrDeadlineExceeded
+	}
 	if c.WriteErr != nil {
 		n := c.WriteErrN
 		if n > len(p) {
@@ -500,6 +508,7 @@ func (c *Conn) peerName() string {
 func (c *Conn) SetDeadline(t time.Time) error {
 	c.lock()
 	c.rdl = t
+	c.wdl = t
 	c.unlock()
 	return nil
 }
@@ -509,7 +518,12 @@ func (c *Conn) SetReadDeadline(t time.Time) error {
 	c.unlock()
 	return nil
 }
-func (c *Conn) SetWriteDeadline(t time.Time) error { return nil }
+func (c *Conn) SetWriteDeadline(t time.Time) error {
+	c.lock()
+	c.wdl = t
+	c.unlock()
+	return nil
+}
 
 // ---- listener ----
 
